@@ -367,6 +367,18 @@ def directed():
         for op in ("sort", "unique_counts", "cumsum", "diff", "add.acc"):
             yield gen_case(rng, [2] + [0] * run + [3, 1, 2], "int64", "dups", op)
             yield gen_case(rng, [0] * run + [3, 2], "int16", "dups", op)
+    # durations and dates (NaT in some rows): sorting, distinct values with counts, differences -- what numpy defines for them and the current tree does in
+    # their own type (NaT sorts last); cumulative sums are left out (a NaT would leak into later rows, F07b's mechanism)
+    for dtype in ("m8[s]", "M8[D]"):
+        for lens in ([3, 0, 4, 2], [5], [1, 1, 2]):
+            tot_ = sum(lens)
+            for k_ in range(4):
+                vals_ = [rng.choice([1, 2, 5, 5, 86400, -7, 10 ** 4]) for _ in range(tot_)]
+                offs_ = [sum(lens[:i_]) for i_ in range(len(lens))]
+                for i_ in rng.sample([i_ for i_ in range(len(lens)) if lens[i_]], min(k_, sum(1 for l_ in lens if l_))):
+                    vals_[offs_[i_] + rng.randrange(lens[i_])] = -2 ** 63      # NaT, at most one per row (several NaT in one row are to "distinct values" what several NaN are: left out)
+                for op in ("sort", "unique", "unique_counts", "diff"):
+                    yield mk_case(lens, dtype, vals_, op, 1, "small")
     # value ranges that are a power of two (or a hair above) at every magnitude: integer keys / offsets computed from the range must hold the largest value
     for dtype in ("int64", "uint64", "int32", "int16"):
         for _ in range(12):
